@@ -9,7 +9,7 @@ os.makedirs(os.path.join(os.environ["VERIF_EVIDENCE_DIR"], "replays"), exist_ok=
 REPO = os.environ["RSP_REPO"]
 n, seed = int(sys.argv[1]), int(sys.argv[2])
 rng = random.Random(seed)
-FILES = ["radsecproxy.c", "radmsg.c", "rewrite.c", "hostport.c", "tlscommon.c", "dns.c", "udp.c", "tcp.c", "tlv11.c", "fticks.c", "fticks_hashmac.c", "util.c"]
+FILES = ["radsecproxy.c", "radmsg.c", "rewrite.c", "hostport.c", "tlscommon.c", "tls.c", "dns.c", "udp.c", "tcp.c", "tlv11.c", "fticks.c", "fticks_hashmac.c", "util.c"]
 RULES = [(r" < ", " <= "), (r" <= ", " < "), (r" > ", " >= "), (r" >= ", " > "), (r" == ", " != "), (r" != ", " == "), (r" && ", " || "), (r" \|\| ", " && "),
          (r" \+ 1\b", ""), (r" - 1\b", ""), (r"\+\+", "--"), (r"\b16\b", "15"), (r"\b20\b", "21"), (r"\b253\b", "254"), (r"\b4\b", "5"), (r"!(\w)", r"\1")]
 cands = []
